@@ -3,7 +3,7 @@ C05 — "a quantifier has exactly one bound-variable edge to the predication it 
 the final value of the dependency map at the id of a quantifier, and its survival through
 predicate modifiers and `make_ids_unique`.  Core Lean only.
 -/
-import Verif.C05.IdLemmas
+import Verif.C05.GenLemmas
 
 namespace Verif.C05
 open Verif.Sem
@@ -365,8 +365,10 @@ theorem addl_roles {pm : PM} {m : MRS} {reps : Reps} (hr : RepsOK m reps) (hid :
 
 /-! ### the theorem -/
 
-theorem bv_edge {pm : PM} {uniq : Bool} {m : MRS} (hiv : m.hasIVProperty = true)
-    (hnr : NoReserved m) (huq : UniqueQuant m) (hpm : pm = .off ∨ pm = .std)
+theorem bv_edge_gen {pm : PM} {uniq : Bool} {m : MRS} (hiv : m.hasIVProperty = true)
+    (hnr : NoReserved m) (huq : UniqueQuant m)
+    (hroles : ∀ reps nodes addl, RepsOK m reps → addlOf pm m reps nodes = .ok addl →
+      ∀ k es, (k, es) ∈ addl → ∀ rt ∈ es, rt.1 ≠ BV_ROLE)
     {e : EDS} {w : List Warn} (h : fromMrs pm uniq m = .ok (e, w))
     {qn pn : Pred × ENode} (hqn : qn ∈ m.preds.zip e.nodes) (hpn : pn ∈ m.preds.zip e.nodes)
     (hqq : qn.1.2.isQuantifier = true) (hpq : pn.1.2.isQuantifier = false)
@@ -384,7 +386,7 @@ theorem bv_edge {pm : PM} {uniq : Bool} {m : MRS} (hiv : m.hasIVProperty = true)
     have hr := representatives_repsOK hreps
     obtain ⟨_, _, deps, _, nodes, addl, _, h2, h3, h4, h5, _, _⟩ := fromMrsWith_decomp hwith
     have hbv := basicDeps_bv hiv hnr huq hq hp hqq hpq hqv hpv h2
-    have hA := applyAddl_bv addl nodes raw.nodes (addl_roles hr hid hpm h4) h5
+    have hA := applyAddl_bv addl nodes raw.nodes (hroles reps nodes addl hr h4) h5
     have hB := applyAddl_spec addl nodes raw.nodes h5
     have hN := nodes_spec hnr h3
     refine All2.comp hN (hA.and hB) ?_
@@ -410,5 +412,16 @@ theorem bv_edge {pm : PM} {uniq : Bool} {m : MRS} (hiv : m.hasIVProperty = true)
     simp only [Except.ok.injEq] at hx2
     simp only at hx1
     rw [hX, show x = (BV_ROLE, pn.2.id) from Prod.ext hx1 hx2.symm]
+
+theorem bv_edge {pm : PM} {uniq : Bool} {m : MRS} (hiv : m.hasIVProperty = true)
+    (hnr : NoReserved m) (huq : UniqueQuant m) (hpm : pm = .off ∨ pm = .std)
+    {e : EDS} {w : List Warn} (h : fromMrs pm uniq m = .ok (e, w))
+    {qn pn : Pred × ENode} (hqn : qn ∈ m.preds.zip e.nodes) (hpn : pn ∈ m.preds.zip e.nodes)
+    (hqq : qn.1.2.isQuantifier = true) (hpq : pn.1.2.isQuantifier = false)
+    {v : Var} (hqv : qn.1.2.iv = some v) (hpv : pn.1.2.iv = some v) :
+    qn.2.edges.filter isBV = [(BV_ROLE, pn.2.id)] :=
+  bv_edge_gen hiv hnr huq
+    (fun _ _ _ hr h4 => addl_roles hr (ids_nodup hnr (completeIVs_of_ivProperty hiv)) hpm h4)
+    h hqn hpn hqq hpq hqv hpv
 
 end Verif.C05
